@@ -229,6 +229,34 @@ Theorem C11_PathsOf_sorted_checker_unique : forall keys from h obs,
 Proof. exact sorted_paths_ok_unique. Qed.
 Print Assumptions C11_PathsOf_sorted_checker_unique.
 
+(** (4) consecutive windows compose (descending the trie level by level): the value over
+    [from, from+w1+w2) is the value over [from, from+w1) followed by the one over [from+w1, from+w1+w2),
+    the counts add up, and once the first window is cut by the string end the second one is empty *)
+Theorem C11_FromStr32_split : forall s from w1 w2,
+  bytes_ok s -> 0 <= from -> 0 <= w1 -> 0 <= w2 -> w1 + w2 <= 32 ->
+  from + w1 + w2 + 7 < 2 ^ 31 -> 8 * zlen s < 2 ^ 31 ->
+  exists k1 v1 k2 v2 k v,
+    FromStr32 s from (from + w1) = Some (k1, v1) /\
+    FromStr32 s (from + w1) (from + w1 + w2) = Some (k2, v2) /\
+    FromStr32 s from (from + (w1 + w2)) = Some (k, v) /\
+    k = k1 + k2 /\ v = v1 * 2 ^ w2 + v2 /\ (k1 < w1 -> k2 = 0).
+Proof. exact FromStr32_split. Qed.
+Print Assumptions C11_FromStr32_split.
+
+Theorem C11_FromStr32_split_checker : forall s from w1 w2,
+  bytes_ok s -> 0 <= from -> 0 <= w1 -> 0 <= w2 -> w1 + w2 <= 32 ->
+  from + w1 + w2 + 7 < 2 ^ 31 -> 8 * zlen s < 2 ^ 31 ->
+  split_ok w1 w2 (spec_FromStr32 s from w1) (spec_FromStr32 s (from + w1) w2)
+                 (spec_FromStr32 s from (w1 + w2)) = true.
+Proof. exact FromStr32_split_checker. Qed.
+Print Assumptions C11_FromStr32_split_checker.
+
+Example C11_split_nonvacuous :
+  FromStr32 [97; 98; 99] 4 13 = Some (9, 0x2c) /\ FromStr32 [97; 98; 99] 13 36 = Some (11, 0x263000) /\
+  FromStr32 [97; 98; 99] 4 36 = Some (20, 0x16263000) /\ 0x16263000 = 0x2c * 2 ^ 23 + 0x263000 /\
+  split_ok 9 23 (9, 0x2c) (11, 0x263000) (20, 0x16263000) = true.
+Proof. repeat apply conj; vm_compute; reflexivity. Qed.
+
 (** non-vacuity: "a`" < "a\x00\xff"... : four sorted keys sharing their first 12 bits (0x61, 0x6_),
     window of 4 bits from bit 12: paths for nibbles 0, 1, 1, 2 -> three distinct, increasing *)
 Example C11_sorted_nonvacuous :
